@@ -195,6 +195,15 @@ func forkAndExecInChild(r *Runner, argv0 *byte, argv, env []*byte, workdir, host
 		}
 	}
 
+	// By convention the fds we are started with (0, 1, 2) are not close-on-exec:
+	// if fewer than three files were requested, close the remaining ones so the
+	// program does not inherit the launcher's stdio (same as syscall.forkExec)
+	for i = len(fd); i < 3; i++ {
+		if i != pipe && (execFile == 0 || i != int(execFile)) {
+			syscall.RawSyscall(syscall.SYS_CLOSE, uintptr(i), 0, 0)
+		}
+	}
+
 	// Set the session ID
 	_, _, err1 = syscall.RawSyscall(syscall.SYS_SETSID, 0, 0, 0)
 	if err1 != 0 {
